@@ -646,6 +646,53 @@ package data
 //@   ensures [C02.mustreshape-aliases-when-contiguous] implies(contigc(nd.Dims, nd.OriginalDims, nd.Step, nd.Offset, len(nd.Dims)), as(r, nd{t}).Impl.id == nd.Impl.id)
 //@   ensures [C02.mustreshape-rowmajor] implies(iprod(newShape, len(newShape)) > 1, forall(j, 0, iprod(newShape, len(newShape)), as(r, nd{t}).Impl[as(r, nd{t}).Start + rmaddr(newShape, as(r, nd{t}).OffsetStep, j, len(newShape), len(newShape))] == nd.Impl[nd.Start + rmaddr(nd.Dims, nd.OffsetStep, j, len(nd.Dims), len(nd.Dims))]))
 
+// ---- Maximum / Minimum of a view: a bound of every element that one element attains (C02); BOUNDED by rank 3 ----
+//@ func (*nd{t}).Maximum(nd) returns (r)
+//@   locals idx, res, shape, size, pos, v
+//@   safety C02
+//@   simplify entry-ids
+//@   bounded rank <= 3 (the mixed-radix successor lemma is proved for ranks 1, 2 and 3)
+//@   instantiate C02.lemma-iprod-is-pfrom0(nd.Dims, len(nd.Dims), 0)
+//@   instantiate C02.lemma-pfrom-positive(nd.Dims, len(nd.Dims), len(nd.Dims))
+//@   callsite Get instantiate C02.lemma-idot-rm(arg1, nd.Dims, nd.OffsetStep, 0, len(nd.Dims), len(nd.Dims))
+//@   loop 0 headinstantiate C02.lemma-idot-rm(idx, nd.Dims, nd.OffsetStep, pos, len(nd.Dims), len(nd.Dims))
+//@   loop 0 instantiate C02.lemma-successor-1(pre(seq(idx)), idx, nd.Dims, pos, 0)
+//@   loop 0 instantiate C02.lemma-successor-2(pre(seq(idx)), idx, nd.Dims, pos, 0)
+//@   loop 0 instantiate C02.lemma-successor-3(pre(seq(idx)), idx, nd.Dims, pos, 0)
+//@   requires 1 <= len(nd.Dims) && len(nd.Dims) <= 3 && len(nd.OffsetStep) == len(nd.Dims) && forall(k, 0, len(nd.Dims), nd.Dims[k] >= 1)
+//@   requires forall(j, 0, iprod(nd.Dims, len(nd.Dims)), 0 <= nd.Start + rmaddr(nd.Dims, nd.OffsetStep, j, len(nd.Dims), len(nd.Dims)) && nd.Start + rmaddr(nd.Dims, nd.OffsetStep, j, len(nd.Dims), len(nd.Dims)) < len(nd.Impl))
+//@   assigns nothing
+//@   ensures [C02.maximum-bound] forall(j, 0, iprod(nd.Dims, len(nd.Dims)), nd.Impl[nd.Start + rmaddr(nd.Dims, nd.OffsetStep, j, len(nd.Dims), len(nd.Dims))] <= r)
+//@   ensures [C02.maximum-attained] exists(j, 0, iprod(nd.Dims, len(nd.Dims)), nd.Impl[nd.Start + rmaddr(nd.Dims, nd.OffsetStep, j, len(nd.Dims), len(nd.Dims))] == r)
+//@   loop 0 prestep [C02.maximum-step] post(res) == pre(res) || post(res) == nd.Impl[nd.Start + rmaddr(nd.Dims, nd.OffsetStep, pre(pos), len(nd.Dims), len(nd.Dims))]
+//@   loop 0 invariant 0 <= pos && pos <= size && size == iprod(nd.Dims, len(nd.Dims)) && size >= 1 && len(idx) == len(nd.Dims) && shape == nd.Dims
+//@   loop 0 invariant forall(k, 0, len(nd.Dims), idx[k] == rmc(nd.Dims, pos, len(nd.Dims), k))
+//@   loop 0 invariant forall(j, 0, pos, nd.Impl[nd.Start + rmaddr(nd.Dims, nd.OffsetStep, j, len(nd.Dims), len(nd.Dims))] <= res) && nd.Impl[nd.Start + rmaddr(nd.Dims, nd.OffsetStep, 0, len(nd.Dims), len(nd.Dims))] <= res
+//@   loop 0 invariant exists(j, 0, size, nd.Impl[nd.Start + rmaddr(nd.Dims, nd.OffsetStep, j, len(nd.Dims), len(nd.Dims))] == res)
+
+//@ func (*nd{t}).Minimum(nd) returns (r)
+//@   locals idx, res, shape, size, pos, v
+//@   safety C02
+//@   simplify entry-ids
+//@   bounded rank <= 3 (the mixed-radix successor lemma is proved for ranks 1, 2 and 3)
+//@   instantiate C02.lemma-iprod-is-pfrom0(nd.Dims, len(nd.Dims), 0)
+//@   instantiate C02.lemma-pfrom-positive(nd.Dims, len(nd.Dims), len(nd.Dims))
+//@   callsite Get instantiate C02.lemma-idot-rm(arg1, nd.Dims, nd.OffsetStep, 0, len(nd.Dims), len(nd.Dims))
+//@   loop 0 headinstantiate C02.lemma-idot-rm(idx, nd.Dims, nd.OffsetStep, pos, len(nd.Dims), len(nd.Dims))
+//@   loop 0 instantiate C02.lemma-successor-1(pre(seq(idx)), idx, nd.Dims, pos, 0)
+//@   loop 0 instantiate C02.lemma-successor-2(pre(seq(idx)), idx, nd.Dims, pos, 0)
+//@   loop 0 instantiate C02.lemma-successor-3(pre(seq(idx)), idx, nd.Dims, pos, 0)
+//@   requires 1 <= len(nd.Dims) && len(nd.Dims) <= 3 && len(nd.OffsetStep) == len(nd.Dims) && forall(k, 0, len(nd.Dims), nd.Dims[k] >= 1)
+//@   requires forall(j, 0, iprod(nd.Dims, len(nd.Dims)), 0 <= nd.Start + rmaddr(nd.Dims, nd.OffsetStep, j, len(nd.Dims), len(nd.Dims)) && nd.Start + rmaddr(nd.Dims, nd.OffsetStep, j, len(nd.Dims), len(nd.Dims)) < len(nd.Impl))
+//@   assigns nothing
+//@   ensures [C02.minimum-bound] forall(j, 0, iprod(nd.Dims, len(nd.Dims)), nd.Impl[nd.Start + rmaddr(nd.Dims, nd.OffsetStep, j, len(nd.Dims), len(nd.Dims))] >= r)
+//@   ensures [C02.minimum-attained] exists(j, 0, iprod(nd.Dims, len(nd.Dims)), nd.Impl[nd.Start + rmaddr(nd.Dims, nd.OffsetStep, j, len(nd.Dims), len(nd.Dims))] == r)
+//@   loop 0 prestep [C02.minimum-step] post(res) == pre(res) || post(res) == nd.Impl[nd.Start + rmaddr(nd.Dims, nd.OffsetStep, pre(pos), len(nd.Dims), len(nd.Dims))]
+//@   loop 0 invariant 0 <= pos && pos <= size && size == iprod(nd.Dims, len(nd.Dims)) && size >= 1 && len(idx) == len(nd.Dims) && shape == nd.Dims
+//@   loop 0 invariant forall(k, 0, len(nd.Dims), idx[k] == rmc(nd.Dims, pos, len(nd.Dims), k))
+//@   loop 0 invariant forall(j, 0, pos, nd.Impl[nd.Start + rmaddr(nd.Dims, nd.OffsetStep, j, len(nd.Dims), len(nd.Dims))] >= res) && nd.Impl[nd.Start + rmaddr(nd.Dims, nd.OffsetStep, 0, len(nd.Dims), len(nd.Dims))] >= res
+//@   loop 0 invariant exists(j, 0, size, nd.Impl[nd.Start + rmaddr(nd.Dims, nd.OffsetStep, j, len(nd.Dims), len(nd.Dims))] == res)
+
 // ---- whole-array helpers (data/arrayops.go) over the general-rank interface model (C02); BOUNDED by rank 3 ----
 
 //@ types {T} = ArrayType, Float64, Float32, Int32, Uint32, Int64, Uint64
